@@ -10,7 +10,7 @@ fi
 ./check setup >/dev/null 2>&1
 for id in ${IDS:-$(harness/target/release/verif list)}; do
   t0=$(date +%s)
-  out=$(VERIF_FUZZ_RUNS=${VERIF_FUZZ_RUNS:-150000} ./check $id thorough 2>&1); rc=$?
+  out=$(./check $id thorough 2>&1); rc=$?   # VERIF_FUZZ_RUNS, if set, overrides the per-property libFuzzer run counts
   t1=$(date +%s)
   echo "$id rc=$rc total=$((t1-t0))s :: $(echo "$out" | grep -E "^fuzz |thorough:" | tr '\n' ' ' | cut -c1-300)"
   [ $rc -ne 0 ] && echo "$out" | grep -E "VIOLATION|detail|case:|INCONCLUSIVE" | head -8 | cut -c1-300
